@@ -931,6 +931,11 @@ func (db *RockDB) Persist(ts int64, rawKey []byte) (int64, error) {
 	if v == nil || expired {
 		return 0, nil
 	}
+	if _, h, herr := db.decodeDBRawValueToRealValue(v); herr == nil && h != nil &&
+		h.Ver == byte(common.ValueHeaderV1) && h.ExpireAt == 0 {
+		// no expiry to remove (redis answers 0)
+		return 0, nil
+	}
 
 	return db.ExpireAt(KVType, rawKey, v, 0)
 }
